@@ -3,6 +3,7 @@ package main
 import (
 	"context"
 	"fmt"
+	"net"
 	"net/http"
 	"net/http/httptest"
 	"net/url"
@@ -115,7 +116,7 @@ func mustRe(s string) *regexp.Regexp {
 const emptyPrefixWhat = "a registration whose prefix list contains the empty prefix does not serve lookups that satisfy its prefixes: srpc.CheckStripPrefix reports an empty matched prefix, which InvokerController / PrefixInvoker read as 'no match'"
 
 func (e *engine) runC35() {
-	e.rep.Rule = "exhaustive over the alphabet {a,b,/}: prefix lists of length 0..2 (+3) from {\"\",a,ab,b/}, regex ∈ {nil,^a,b$}, service list ∈ {[],[ab],[b,a]}, server regex ∈ {nil,^s}, strip ∈ {0,1} × service IDs {\"\",a,ab,abb,b,b/a,c} × server IDs {\"\",s}; HTTP: prefix lists from {\"\",/a,/a/b,/b/}, regex ∈ {nil,^/a,c$} × 10 URLs incl. escaped-slash RawPath; ServeMux registrations × methods {\"\",GET,POST} × 9 paths; CheckStripPrefix and http.StripPrefix differentially on random strings; regexp / ServeMux called directly as oracles; distinct = distinct op line"
+	e.rep.Rule = "exhaustive over the alphabet {a,b,/}: prefix lists of length 0..2 (+3) from {\"\",a,ab,b/}, regex ∈ {nil,^a,b$}, service list ∈ {[],[ab],[b,a]}, server regex ∈ {nil,^s}, strip ∈ {0,1} × service IDs {\"\",a,ab,abb,b,b/a,c} × server IDs {\"\",s}; HTTP: prefix lists from {\"\",/a,/a/b,/b/}, regex ∈ {nil,^/a,c$} × 10 URLs incl. escaped-slash RawPath; ServeMux registrations (exact, subtree, method-qualified, HOST-qualified, {x} wildcard, {$} anchor, HEAD) × methods {\"\",GET,POST,HEAD} × 28 URLs incl. absolute URLs naming the host / another host / host:port, the mux consulted with the method AND host the model names; server IDs {\"\",s} and, under a server pattern, {t,xs} too; LookupRpcClient registrations: bifrost_rpc.ClientController for every prefix list (answered?, and the service ID the wrapped client sees through ExecCall and NewStream), the controller stream/srpc/client/controller builds for every service_id_prefixes list (none, [\"\"], leading / trailing empty prefix: answered? call forwarded or refused?), rpc/access ClientController for service pattern ∈ {nil,^a,b$,^$} × server pattern ∈ {nil,^s,t$,^$} × service IDs × server IDs {\"\",s,t,xs,st}; CheckStripPrefix and http.StripPrefix differentially on random strings; regexp / ServeMux called directly as oracles; distinct = distinct op line"
 	e.rep.Require("rpcsvc.a0", "rpcsvc.a1", "rpcsvc.strip", "rpcsvc.refused", "invoker.a0", "invoker.a1", "invoker.refused",
 		"http.a0", "http.a1", "http.strip", "http.404", "mux.a0", "mux.a1", "csp", "stripprefix")
 	u := []string{"", "a", "ab", "b/"}
@@ -124,7 +125,14 @@ func (e *engine) runC35() {
 		u = append(u, "b", "abb")
 		sids = append(sids, "b/", "abba", "ba")
 	}
-	srvs := []string{"", "s"}
+	// server IDs: unset, one the server pattern accepts, and — when a pattern is configured — two
+	// non-empty ones it refuses ("xs" contains the accepted ID but does not start with it)
+	srvsFor := func(sreS string) []string {
+		if sreS == "" {
+			return []string{"", "s"}
+		}
+		return []string{"", "s", "t", "xs"}
+	}
 	ectx, ecancel := context.WithCancel(e.ctx)
 	defer ecancel()
 
@@ -139,7 +147,7 @@ func (e *engine) runC35() {
 						ctl := bifrost_rpc.NewRpcServiceController(verifInfo, bifrost_rpc.NewRpcServiceBuilder(inner), ps, strip, re, list, sre)
 						_ = ctl.Execute(ectx)
 						for _, sid := range sids {
-							for _, srv := range srvs {
+							for _, srv := range srvsFor(sreS) {
 								op := fmt.Sprintf("dispatch.rpcsvc prefixes=%s strip=%s re=%s list=%s sre=%s sid=%s srv=%s",
 									hxList(ps), bit(strip), bit(re != nil), hxList(list), bit(sre != nil), hx(sid), hx(srv))
 								model, line := e.oracleQuery(op, func(req string) string {
@@ -355,7 +363,14 @@ func (e *engine) runC35() {
 	}
 
 	// ---------------- ServeMux registration (transport/websocket/http) ----------------
-	patLists := [][]string{nil, {"/a"}, {"/b/"}, {"/a", "/b/"}, {"GET /c"}, {"/a", "GET /c"}}
+	// Pattern shapes: exact path, subtree (trailing slash), method-qualified, HOST-qualified (the
+	// documented example of the config: "GET example.com/my/ws"), single-segment wildcard {x},
+	// end anchor {$}; lookups incl. absolute URLs naming the host / another host / a host with port.
+	patLists := [][]string{nil, {"/a"}, {"/b/"}, {"/a", "/b/"}, {"GET /c"}, {"/a", "GET /c"},
+		{"h.example/a"}, {"GET h.example/g", "/a"}, {"/w/{x}"}, {"/e/{$}"}, {"HEAD /h"}, {"h.example/s/", "POST /c"}}
+	muxURLs := []string{"/a", "/a/x", "/b", "/b/", "/b/x", "/c", "/d", "/", "/p",
+		"http://h.example/a", "http://other.example/a", "//h.example/a", "http://h.example:8080/a", "http://h.example/g", "/g",
+		"http://h.example/s/x", "http://h.example/s", "/s/x", "/w/1", "/w/", "/w/1/2", "/w", "/e/", "/e/x", "/e", "/h", "/A", "/a/"}
 	for _, pats := range patLists {
 		for _, ppats := range [][]string{nil, {"/p"}} {
 			ctl, err := websocket_http.NewWebSocketHttp(e.le, e.bus, &websocket_http.Config{HttpPatterns: pats, PeerHttpPatterns: ppats})
@@ -367,14 +382,15 @@ func (e *engine) runC35() {
 			for _, p := range all {
 				ref.HandleFunc(p, func(http.ResponseWriter, *http.Request) {})
 			}
-			for _, method := range []string{"", "GET", "POST"} {
-				for _, t := range []string{"/a", "/a/x", "/b", "/b/", "/b/x", "/c", "/d", "/", "/p"} {
+			for _, method := range []string{"", "GET", "POST", "HEAD"} {
+				for _, t := range muxURLs {
 					pu, _ := url.Parse(t)
-					op := fmt.Sprintf("dispatch.mux method=%s", hx(method))
+					op := fmt.Sprintf("dispatch.mux method=%s uhost=%s", hx(method), hx(pu.Host))
 					effMethod := ""
 					model, line := e.oracleQuery(op, func(req string) string {
+						// the model says with which method and which host the mux is consulted
 						effMethod = string(lib.Unhex(lib.KV(req, "method")))
-						_, pat := ref.Handler(&http.Request{Method: effMethod, URL: pu})
+						_, pat := ref.Handler(&http.Request{Method: effMethod, URL: pu, Host: string(lib.Unhex(lib.KV(req, "host")))})
 						return "pat=" + hx(pat)
 					})
 					line += " url=" + hx(t) + " pats=" + hxList(all)
@@ -388,21 +404,14 @@ func (e *engine) runC35() {
 						answered = len(res) != 0
 						return "ok a=" + bit(answered)
 					})
-					// monitor: the three pattern shapes used here, stated directly
+					// monitor: the pattern shapes used here, stated directly
 					m := method
 					if m == "" {
 						m = "OPTIONS" // documented default of MatchServeMuxPattern
 					}
 					want := false
 					for _, p := range all {
-						switch {
-						case p == "GET /c":
-							want = want || (t == "/c" && (m == "GET" || m == "HEAD"))
-						case strings.HasSuffix(p, "/"):
-							want = want || strings.HasPrefix(t, p) || t+"/" == p
-						default:
-							want = want || t == p
-						}
+						want = want || muxPatternMatches(p, m, pu)
 					}
 					mon, key := "", "dispatch.mux"
 					if answered != want {
@@ -460,4 +469,44 @@ func (e *engine) runC35() {
 
 	// history independence + separator-ambiguity families of the prefix encoders (c35b.go)
 	e.runC35Pure()
+	// LookupRpcClient registrations and the rpc/access client controller (c35c.go)
+	e.runC35Clients()
+}
+
+// muxPatternMatches states, for the pattern shapes of the generator ([METHOD ][HOST]/PATH with an
+// exact path, a subtree "…/", one trailing wildcard segment "/{x}" or the end anchor "/{$}"), whether
+// a lookup with method m for URL u falls under pattern p — without consulting net/http.
+func muxPatternMatches(p, m string, u *url.URL) bool {
+	if i := strings.IndexByte(p, ' '); i >= 0 {
+		pm := p[:i]
+		p = p[i+1:]
+		if !(pm == m || (pm == "GET" && m == "HEAD")) {
+			return false
+		}
+	}
+	if !strings.HasPrefix(p, "/") {
+		i := strings.IndexByte(p, '/')
+		host := u.Host
+		if h, _, err := net.SplitHostPort(host); err == nil {
+			host = h
+		}
+		if host != p[:i] {
+			return false
+		}
+		p = p[i:]
+	}
+	t := u.Path
+	switch {
+	case strings.HasSuffix(p, "/{$}"):
+		base := strings.TrimSuffix(p, "{$}")
+		return t == base || t+"/" == base // the latter is answered with a redirect to the former
+	case strings.HasSuffix(p, "/{x}"):
+		base := strings.TrimSuffix(p, "{x}")
+		rest := strings.TrimPrefix(t, base)
+		return strings.HasPrefix(t, base) && rest != "" && !strings.Contains(rest, "/")
+	case strings.HasSuffix(p, "/"):
+		return strings.HasPrefix(t, p) || t+"/" == p
+	default:
+		return t == p
+	}
 }
